@@ -157,6 +157,80 @@ Fixpoint run_journal_x (ord permissive : bool) (pl : pool) (hist : list apost)
   end.
 End WithAutomated.
 
+(* ---- deferred postings `<Account>` (textual.cc parse_post: `*p == '<' && *(e - 1) == '>'` sets POST_DEFERRED and nothing
+   else, so the posting is an ordinary REAL posting while its transaction is read and balanced: it must balance, and
+   the loop over xact->posts subtracts it from a later `= AMOUNT` of the same transaction).  xact_base_t::finalize hands
+   it to account_t::add_deferred_post instead of add_post, and journal_t::read_textual calls
+   master->apply_deferred_posts() only when the file of one -f option has been read to its end (an included file is
+   read inside the same instance): until then account_t::amount does not see it.  The postings finalize makes for an
+   elided amount copy the flags of the elided posting (add_balancing_post: set_flags(null_post->flags() | ..)). ---- *)
+Record dpost : Type := mkD { d_w : wpost; d_deferred : bool }.
+
+Inductive jitem : Type :=
+| JXact (x : list dpost)
+| JEndOfFile.                     (* the end of the file of one -f option *)
+
+(* the posting finalize fills: the first must-balance posting without an amount (scan_posts) *)
+Fixpoint null_index (ps : list post) (i : nat) : option nat :=
+  match ps with
+  | [] => None
+  | p :: r => if must_balance p && (match balancing_amount p with None => true | Some _ => false end)
+              then Some i else null_index r (S i)
+  end.
+
+(* POST_DEFERRED of the n postings of a finalized transaction: the written ones keep theirs, the ones made for further
+   commodities of the elided amount have the elided posting's *)
+Definition flags_after (fl : list bool) (written : list post) (n : nat) : list bool :=
+  fl ++ repeat (match null_index written 0 with Some i => nth i fl false | None => false end) (n - length fl).
+
+(* (the postings add_post receives now, the ones add_deferred_post keeps); a posting without a flag is not deferred *)
+Fixpoint split_deferred (fl : list bool) (ps : list post) : list post * list post :=
+  match ps with
+  | [] => ([], [])
+  | p :: r =>
+      let (a, b) := split_deferred (tl fl) r in
+      if hd false fl then (a, p :: b) else (p :: a, b)
+  end.
+
+Section WithDeferred.
+Variable ext : (comm -> Z) -> list post -> list post.
+
+(* hist: what has reached the accounts; held: what the accounts keep in deferred_posts *)
+Fixpoint run_journal_d (ord permissive : bool) (pl : pool) (hist held : list apost)
+         (xs : list jitem) : list (res outcome) :=
+  match xs with
+  | [] => []
+  | JEndOfFile :: xs' => run_journal_d ord permissive pl (hist ++ held) [] xs'
+  | JXact x :: xs' =>
+      let (r, pl') := resolve_posts ord permissive pl hist [] (map d_w x) in
+      match r with
+      | Err e => Err e :: run_journal_d ord permissive pl' hist held xs'
+      | Ok ps =>
+          match finalize ord (cp_of pl') None ps with
+          | Ok (Accepted ps') =>
+              let (now, later) := split_deferred (flags_after (map d_deferred x) ps (length ps')) ps' in
+              Ok (Accepted (ps' ++ ext (cp_of pl') ps'))
+                :: run_journal_d ord permissive pl' (hist ++ posts_to_history (now ++ ext (cp_of pl') ps'))
+                                 (held ++ posts_to_history later) xs'
+          | other => other :: run_journal_d ord permissive pl' hist held xs'
+          end
+      end
+  end.
+End WithDeferred.
+
+(* ---- `apply account NAME` .. `end apply account` (textual.cc apply_account_directive: the stack receives
+   top_account()->find_account(NAME); parse_post hands top_account() to journal_t::register_account, which - no alias
+   being in force - returns master_account->find_account(name)): inside the block a posting written `name` belongs to
+   the account  N1:..:Nk:name  (N1 the outermost block), and that account's total is what its `= AMOUNT` consults ---- *)
+Definition qualify (stack : list str) (name : str) : str :=
+  fold_right (fun n acc => n ++ 58 :: acc) name stack.
+
+Definition rename_post (f : str -> str) (p : post) : post :=
+  mkPost (f (p_acct p)) (p_kind p) (p_amt p) (p_cost p) (p_lotprice p) (p_calculated p) (p_generated p) (p_cost_calculated p).
+
+Definition under (stack : list str) (x : list dpost) : list dpost :=
+  map (fun d => mkD (mkW (rename_post (qualify stack) (w_post (d_w d))) (w_assigned (d_w d))) (d_deferred d)) x.
+
 (* rules of the shape  = /^ACCOUNT$/  with lines  [PREFIX$account] MULT  or  [PREFIX] MULT  (a commodity-less amount
    multiplies the matched posting's; xact.cc extend_xact): one generated posting per line for every posting of exactly
    that account which no rule made *)
